@@ -292,6 +292,15 @@ def check(prog, rep, tier):
             if not evs:
                 okl = False
                 break
+            lastv = strip_epochs(evs[-1].value)
+            tabs = {("f", SELF, "_buckets", 0)}
+            if p.fields.get((SELF, "_buckets")) is not None:
+                tabs.add(strip_epochs(p.fields[(SELF, "_buckets")]))  # (inside the loader the field reads as what was just assigned)
+            if not counting and lastv[0] == "call" and lastv[1] == ("g", "sum") and len(lastv[2]) == 1 and lastv[2][0][0] == "comp" \
+                    and len(lastv[2][0][3]) == 1 and not lastv[2][0][3][0][3] and lastv[2][0][3][0][2] in tabs \
+                    and lastv[2][0][2] == ("call", ("g", "len"), (("it", lastv[2][0][3][0][1], lastv[2][0][3][0][2]),), ()):
+                seenl = True
+                continue  # counted afresh from the loaded table: sum(len(bucket) for bucket in buckets)
             if evs[0].value != C(0):
                 okl = False
                 break
